@@ -1593,6 +1593,12 @@ func (c *compiler) compileTermSuffix(e *Term, s *Suffix) error {
 			if u := e.SuffixList[len(e.SuffixList)-1].toTerm(); u != nil {
 				// no need to clone (ref: compileTerm)
 				e.SuffixList = e.SuffixList[:len(e.SuffixList)-1]
+				if x := u.Index; x != nil && x.toIndexKey() == nil &&
+					(e.Type != TermTypeIdentity || len(e.SuffixList) > 0) {
+					// the keys are evaluated against the input of the term
+					//   .foo[f]? => f as $x | .foo | try .[$x]
+					return c.compileOptionalIndex(e, x)
+				}
 				if err := c.compileTerm(e); err != nil {
 					return err
 				}
@@ -1603,6 +1609,30 @@ func (c *compiler) compileTermSuffix(e *Term, s *Suffix) error {
 	} else {
 		return fmt.Errorf("invalid suffix: %s", s)
 	}
+}
+
+func (c *compiler) compileOptionalIndex(e *Term, x *Index) error {
+	y := &Index{IsSlice: x.IsSlice}
+	q := &Query{Op: OpPipe, Left: &Query{Term: e}, Right: &Query{
+		Term: &Term{Type: TermTypeTry, Try: &Try{
+			Body: &Query{Term: &Term{Type: TermTypeIndex, Index: y}},
+		}},
+	}}
+	bind := func(name string, l *Query) *Query {
+		q = &Query{
+			Op: OpPipe, Left: l, Right: q, Patterns: []*Pattern{{Name: name}},
+		}
+		return &Query{Term: &Term{Type: TermTypeFunc, Func: &Func{Name: name}}}
+	}
+	if x.End != nil {
+		y.End = bind("$%1", x.End)
+	}
+	if x.Start != nil {
+		y.Start = bind("$%0", x.Start)
+	} else if x.Str != nil {
+		y.Start = bind("$%0", &Query{Term: &Term{Type: TermTypeString, Str: x.Str}})
+	}
+	return c.compileQuery(q)
 }
 
 func (c *compiler) compileCall(name string, args []*Query) error {
